@@ -678,7 +678,7 @@ func (env *Env) callSpecFunc(sf *SpecFunc, e *E) Val {
 		a := env.tr(e.A[i])
 		if ps == "Str" {
 			a = env.view(a)
-			if sf.Body == nil {
+			if sf.Body == nil || sf.Opaque {
 				args = append(args, sArr(a.S), sOff(a.S), add(sOff(a.S), sLen(a.S)))
 				continue
 			}
@@ -730,7 +730,8 @@ func (m *Mod) ensureSpecFunc(sf *SpecFunc, from *Env) {
 	}
 	rs, _ := denv.specSort(sf.Ret)
 	if sf.Body == nil {
-		m.funcsDecl = append(m.funcsDecl, fmt.Sprintf("(declare-fun sf_%s (%s) %s)", sf.Name, strings.Join(flat, " "), rs))
+		d := fmt.Sprintf("(declare-fun sf_%s (%s) %s)", sf.Name, strings.Join(flat, " "), rs)
+		m.funcsDecl = append(m.funcsDecl, specDecl{d, d})
 		return
 	}
 	body := denv.tr(sf.Body)
@@ -738,5 +739,31 @@ func (m *Mod) ensureSpecFunc(sf *SpecFunc, from *Env) {
 		body.S = "0"
 	}
 	// the body may itself have triggered declarations of callees (appended before us)
-	m.funcsDecl = append(m.funcsDecl, fmt.Sprintf("(define-fun sf_%s (%s) %s %s)", sf.Name, strings.Join(decl, " "), rs, body.S))
+	def := fmt.Sprintf("(define-fun sf_%s (%s) %s %s)", sf.Name, strings.Join(decl, " "), rs, body.S)
+	if !sf.Opaque {
+		m.funcsDecl = append(m.funcsDecl, specDecl{def, def})
+		return
+	}
+	// opaque: uninterpreted in proofs, with a defining axiom triggered on the application
+	oenv := &Env{m: m, tpkg: from.tpkg, spkg: from.spkg, inDef: true, vars: map[string]Val{}}
+	var qv, app []string
+	for _, p := range sf.Params {
+		s, g := oenv.specSort(p.Type)
+		n := "o_" + p.Name
+		if s == "Str" {
+			qv = append(qv, "("+n+"_a (Array Int Int))", "("+n+"_l Int)", "("+n+"_h Int)")
+			app = append(app, n+"_a", n+"_l", n+"_h")
+			oenv.vars[p.Name] = Val{S: mkStr(n+"_a", n+"_l", "(- "+n+"_h "+n+"_l)"), Sort: "Str", G: g}
+		} else {
+			qv = append(qv, "("+n+" "+s+")")
+			app = append(app, n)
+			oenv.vars[p.Name] = Val{S: n, Sort: s, G: g}
+		}
+	}
+	obody := oenv.tr(sf.Body)
+	call := "(sf_" + sf.Name + " " + strings.Join(app, " ") + ")"
+	proof := fmt.Sprintf("(declare-fun sf_%s (%s) %s)\n(assert (forall (%s) (! (= %s %s) :pattern (%s))))", sf.Name, strings.Join(flat, " "), rs, strings.Join(qv, " "), call, obody.S, call)
+	// cex mode: transparent definition over the same flattened signature
+	cex := fmt.Sprintf("(define-fun sf_%s (%s) %s %s)", sf.Name, strings.Join(qv, " "), rs, obody.S)
+	m.funcsDecl = append(m.funcsDecl, specDecl{proof, cex})
 }
